@@ -103,9 +103,7 @@ Quantify(p, n, k0) ==
                 k4 == hk[2]
                 flaw == IF At(p, k4) = 0 THEN "overrun"
                         ELSE IF At(p, k4) # 125 THEN "unclosed" ELSE ""
-            (* bounds that are not closed by } are refused (since fix 3 of C11; before, the character in that place was
-               skipped unseen) *)
-            IN IF flaw # "" \/ lo > NREPS \/ hi > NREPS \/ (hi >= 0 /\ lo > hi) THEN <<Null, k4 + 1, flaw>>   \* rejected
+            IN IF lo > NREPS \/ hi > NREPS \/ (hi >= 0 /\ lo > hi) THEN <<Null, k4 + 1, flaw>>   \* rejected
                ELSE <<[n EXCEPT !.lo = lo, !.hi = hi], k4 + 1, flaw>>
 
 Rank(f) == CASE f = "hang" -> 4 [] f = "overrun" -> 3 [] f = "inverted" -> 2 [] f = "unclosed" -> 1 [] OTHER -> 0
